@@ -11,7 +11,7 @@
    reads name keys only) resp. C02's v2_store (the v2 reader tolerates foreign keys), and
    C01_response_is_spec / C02_v2_equals_v1_any_store. *)
 From DnsV Require Import Model.Compile Spec.MapOfLists Proofs.MultiValue Proofs.MapOfLists Proofs.Batch Proofs.CompilePipe.
-From DnsV Require Import Model.Text.
+From DnsV Require Import Model.Text Model.Preproc.
 From DnsV Require Import Model.Store Model.LookupV1 Model.LookupV2 Model.Serve Spec.Answer Spec.Rows Spec.AnswerExtra Spec.Declared.
 From DnsV Require Import Proofs.Answer Proofs.Compile Proofs.ZoneCut Proofs.Referral Proofs.SoaAuth Proofs.AnswerItems Proofs.AuthSections.
 From DnsV Require Import Proofs.Ctx Proofs.RevOrder Proofs.SeekSkip Proofs.V2Store Proofs.V2Serve.
@@ -62,10 +62,12 @@ Proof.
 Qed.
 
 (* the client locations for which no v1 name key L ++ name can fall into a foreign family: the
-   second-level marker bytes are excluded.  (Only \000% can really collide - a subnet key is
-   \000% ++ map(2) ++ address(16) ++ length, which for map = \001x, address = 15.<15 bytes>, /0
-   reads as the packed name x.<15 bytes>. under location \000%; the other exclusions keep the
-   proof to a comparison of two bytes.) *)
+   second-level marker bytes are excluded.  \000% is a real collision ([loc_guard_needed] below): the
+   short key of the subnet line %lo,0.0.0.0/8,\001x is \000% \001 x \000 = \000% ++ the packed name x. ,
+   so for a client whose location id were \000% the label-by-label reader would take the subnet's
+   value for a row of the name x.  The map keys \000M / \0008 ++ name ++ = or * cannot collide (packed
+   names are prefix free) and \000/ \0004 \0006 \000o_features cannot either (too short / a label
+   length 95); they are excluded to keep the proof to a comparison of two bytes. *)
 Definition loc_okb (L : bytes) : bool :=
   match L with
   | [a; b] => negb ((a =? 0) && existsb (N.eqb b) [37; 77; 56; 47; 52; 54; 111])
@@ -435,4 +437,31 @@ Proof.
   intros line conv accum feature f db NF KV C.
   destruct (rdb_compilation_lossless line conv accum feature f db NF KV C) as [OK Hv].
   apply dump_of_keys_ok. apply (compiled_support line conv accum feature f db OK Hv).
+Qed.
+
+(* ---------------------------------------------------------------- the side records of the real codec *)
+(* an accumulator that marshals records of the unserved line types (range points: Model/Preproc.compile
+   hands the Rearranger's points to convert) and the features record of Model/Preproc satisfy [side_ok] *)
+Lemma feature_kv_foreign : forall v2, foreign_keyb (fst (feature_kv v2)) = true.
+Proof. intros. reflexivity. Qed.
+
+Theorem side_ok_unserved : forall v2 nornet' (pts : list bytes -> list Text.record) f,
+  Forall (fun r => served r = false) (pts f) ->
+  side_ok (fun f => flat_map (convert v2 nornet') (pts f)) [feature_kv v2] f.
+Proof.
+  intros v2 nornet' pts f H. unfold side_ok. apply Forall_app. split.
+  - induction H as [|r t Hr Ht IH]; [constructor|]. cbn [flat_map]. apply Forall_app. split; [|exact IH].
+    destruct (convert_unserved v2 nornet' r Hr) as [_ E]. rewrite forallb_forall in E.
+    apply Forall_forall. intros kv Hin. apply aux_foreign, E. exact Hin.
+  - constructor; [apply feature_kv_foreign | constructor].
+Qed.
+
+(* the guard [loc_okb] is needed for v1 keys: a subnet line whose short key is a name key under location \000% *)
+Lemma loc_guard_needed :
+  let r := RNet [97; 98] (v4pre ++ [0; 0; 0; 0]) 104 [1; 120] in     (* %ab,0.0.0.0/8,\001x *)
+  In ([0; 37] ++ pack [[120]], [97; 98]) (convert false false r) /\
+  pname (pack [[120]]) /\ loc_okb [0; 37] = false.
+Proof.
+  cbv zeta. split; [vm_compute; left; reflexivity|]. split; [|reflexivity].
+  exists [[120]]. split; [constructor; [unfold lab_ok, nlen; cbn; lia | constructor]|]. split; [vm_compute; discriminate | reflexivity].
 Qed.
